@@ -13,9 +13,15 @@ import (
 	corev1 "k8s.io/api/core/v1"
 	"k8s.io/apimachinery/pkg/api/resource"
 	metav1 "k8s.io/apimachinery/pkg/apis/meta/v1"
+	"k8s.io/apimachinery/pkg/runtime"
 	"k8s.io/apimachinery/pkg/types"
+	"k8s.io/client-go/tools/record"
 	fwktype "k8s.io/kube-scheduler/framework"
 	"k8s.io/kubernetes/pkg/scheduler/framework"
+	"k8s.io/kubernetes/pkg/scheduler/framework/plugins/defaultbinder"
+	"k8s.io/kubernetes/pkg/scheduler/framework/plugins/queuesort"
+	frameworkruntime "k8s.io/kubernetes/pkg/scheduler/framework/runtime"
+	schedulertesting "k8s.io/kubernetes/pkg/scheduler/testing/framework"
 
 	apiext "github.com/koordinator-sh/koordinator/apis/extension"
 	schedulingv1alpha1 "github.com/koordinator-sh/koordinator/apis/scheduling/v1alpha1"
@@ -112,6 +118,39 @@ func TestVerifC05Pipeline(t *testing.T) {
 		t.Fatal("fixture handle is no FrameworkExtender")
 	}
 	ctx := context.TODO()
+	// Reserve of a normal pod goes through the REAL frameworkext extender's RunReservePluginsReserve (round 8): a second
+	// framework over the fixture's client set / informers / snapshot whose only Reserve plugin is the plugin under test,
+	// wrapped by an extender whose reservation nominator is that plugin (what PluginFactoryProxy registers).  Whatever the
+	// extender does with the pod's nomination after the Reserve plugins (it drops it, success or failure) is the
+	// implementation's, not the harness'.
+	rsvFactory, err := frameworkext.NewFrameworkExtenderFactory(
+		frameworkext.WithKoordinatorClientSet(suit.extenderFactory.KoordinatorClientSet()),
+		frameworkext.WithKoordinatorSharedInformerFactory(suit.extenderFactory.KoordinatorSharedInformerFactory()),
+		frameworkext.WithReservationNominator(pl),
+	)
+	if err != nil {
+		t.Fatal(err)
+	}
+	rsvFactory.InitScheduler(frameworkext.NewFakeScheduler())
+	rsvFw, err := schedulertesting.NewFramework(ctx,
+		[]schedulertesting.RegisterPluginFunc{
+			schedulertesting.RegisterBindPlugin(defaultbinder.Name, defaultbinder.New),
+			schedulertesting.RegisterQueueSortPlugin(queuesort.Name, queuesort.New),
+			schedulertesting.RegisterReservePlugin(Name, func(context.Context, runtime.Object, fwktype.Handle) (fwktype.Plugin, error) { return pl, nil }),
+		},
+		"koord-scheduler",
+		frameworkruntime.WithClientSet(suit.fw.ClientSet()),
+		frameworkruntime.WithInformerFactory(suit.fw.SharedInformerFactory()),
+		frameworkruntime.WithSnapshotSharedLister(suit.fw.SnapshotSharedLister()),
+		frameworkruntime.WithEventRecorder(record.NewEventRecorderAdapter(record.NewFakeRecorder(1024))),
+	)
+	if err != nil {
+		t.Fatal(err)
+	}
+	rsvExtender := rsvFactory.NewFrameworkExtender(rsvFw)
+	if rsvExtender.GetReservationNominator() != frameworkext.ReservationNominator(pl) {
+		t.Fatal("harness: the Reserve extender's reservation nominator is not the plugin under test")
+	}
 	// the listers the plugin reads (rLister: Reserve / Unreserve of a reserve pod, name affinity; podLister:
 	// unreservePod) are the informers' stores; the informers are not started, the harness fills the stores
 	rIdx := suit.extenderFactory.KoordinatorSharedInformerFactory().Scheduling().V1alpha1().Reservations().Informer().GetIndexer()
@@ -695,9 +734,10 @@ func TestVerifC05Pipeline(t *testing.T) {
 							h.Tag("pipe:nom:filtered-single")
 						}
 					}
-					rst := pl.Reserve(ctx, cs, kpod, "n1")
-					// frameworkExtenderImpl.RunReservePluginsReserve drops the pod's nomination right after the Reserve plugins
-					pl.nominator.DeleteNominatedReservePodOrReservation(kpod)
+					// the real frameworkExtenderImpl.RunReservePluginsReserve: Plugin.Reserve as the framework's Reserve plugin, then
+					// whatever the extender does with the pod's nomination (a nomination that outlives the cycle would be read by
+					// the pod's NEXT Reserve before the cycle state: GetNominatedReservation comes first in Plugin.Reserve)
+					rst := rsvExtender.RunReservePluginsReserve(ctx, cs, kpod, "n1")
 					rc := c05CodeOf(rst)
 					obs = append(obs, fmt.Sprintf("rsv %d", rc))
 					h.Tag(fmt.Sprintf("pipe:rsv:%d", rc))
